@@ -31,7 +31,7 @@ def cases(seed, tier):
         if i % 3 != 2:
             f = [x for x in f if x != "stoch"] + ["nostoch"]
         if i % 4 == 1:
-            f = f + ["ninf"]      # some agents end up in states without any feasible choice (all options -inf)
+            f = sorted(set(f + ["constraint", "cs"]))    # a constraint bounded by a continuous state: room for agents without feasible choice
         out.append({"kind": "gen", "seed": seed * 1_000_003 + 31337 + i, "force": f, "n_params": 1, "budget": 3000,
                     "n_agents": [5, 7, 11, 13][i % 4] if tier == "quick" else [5, 7, 13, 64, 256][i % 5]})
     return out
@@ -53,10 +53,24 @@ def run_case(case):
     info = {"mj": mj, "meta": meta, "P": P}
     out = base_out(info, case)
     Vm = model_solve(mj, P)
-    # value arrays with -inf entries (states without any feasible choice) are *not* skipped here: the oracle compares
-    # the implementation with itself, and an agent without a feasible choice must not pick up another agent's row
-    out["hist"]["ninf_in_V"] = int(any(y == "-inf" for b in Vm["V"] for y in b["data"]) or any(u for u in Vm["undef"]))
+    if any(u for u in Vm["undef"]) or any(y == "-inf" for b in Vm["V"] for y in b["data"]):
+        # C08 quantifies over supported models (every grid state has a feasible choice); on others the continuation can be
+        # nan (0 * -inf in the interpolation) and an all-nan agent has no arg-max of its own
+        out["skipped"] = "unsupported (-inf value or undefined transition)"
+        return out
     init = gen_initial_states(r, mj, n, meta=meta) if "init" not in case else {s: [Fr(x) for x in v] for s, v in case["init"].items()}
+    if "init" not in case:
+        # "starved" agents: supported model, but an off-grid agent far below the grid of a continuous state that bounds the choices
+        # from above (`choices <= state + slack`): every option of such an agent is infeasible (value -inf). It must still not
+        # pick up the row of another agent.
+        bound_states = [a for f in mj["functions"] if f["name"].endswith("_constraint") and f["name"] != "lower_constraint"
+                        for a in f["args"] if a in dict(mj["states"]) and dict(mj["states"])[a]["k"] == "lin"]
+        if bound_states:
+            for j in r.sample(range(n), k=min(2, n - 1)):
+                if j != 0 or r.random() < 0.3:
+                    for sname in set(bound_states):
+                        init[sname][j] = Fr(dict(mj["states"])[sname]["a"]) - 16 - j
+            out["hist"]["starved_agents"] = 1
     seed = case.get("sim_seed", 4242)
     stochastic = any(f.get("stochastic") for f in mj["functions"])
     T = mj["n_periods"]
